@@ -133,8 +133,23 @@ def d1_reaching_defs(ctx: Ctx):
     t_out = ('out', ('attr', sym('stmt'), 'ift'), IN)
     f_out = ('out', ('attr', sym('stmt'), 'iff'), IN)
     dom = show(('each', ('&', frozenset([('keys', t_out), ('keys', f_out)]))))
-    _check_phi(ctx, fn, '_visit_if', [r for r, _ in ex.returns], base=IN, domain={dom},
+    # an arm that always returns reaches nothing after the statement: under "exactly one arm always returns" the result
+    # is the environment of the other arm, unmerged (merging would drop the names only that arm defines)
+    general = []
+    for r, guards in ex.returns:
+        gs = [show(g) for g in guards]
+        one_returns = [g for g in gs if '_always_returns(stmt.ift)' in g and '_always_returns(stmt.iff)' in g and '!=' in g and not g.startswith('not')]
+        if one_returns:
+            ok = isinstance(r, tuple) and r[0] == 'ite' and show(r[1]) == '_always_returns(stmt.ift)' and r[2] == f_out and r[3] == t_out
+            ctx.check(ok, RD, fn, '_ReachingDefs._visit_if', 'exactly one arm always returns -> what follows sees the other arm\'s definitions',
+                      f'leaves {show(r)[:200]}: the statements after the `if` run only when the arm that falls through was taken')
+        else:
+            general.append(r)
+    if len(general) != len(ex.returns):
+        _check_always_returns(ctx)
+    _check_phi(ctx, fn, '_visit_if', general, base=IN, domain={dom},
                lhs=lambda n: at(t_out, n), rhs=lambda n: at(f_out, n), loop=False, guarded=True, either_order=True,
+               after_exit=lambda g: isinstance(g, tuple) and g[0] == 'not' and show(g[1]) in ('(_always_returns(stmt.ift) != _always_returns(stmt.iff))', '(_always_returns(stmt.iff) != _always_returns(stmt.ift))'),
                why='a name both arms define differently must merge the two definitions')
 
     # while
@@ -263,13 +278,72 @@ def d1_reaching_defs(ctx: Ctx):
     ctx.check(ok, RD, f, 'same_object_defs', 'an element store and a phi denote the object(s) they came from; a rebinding denotes a new one', f'got {rows}')
 
 
+def _check_always_returns(ctx: Ctx):
+    """`_always_returns(block)` may say yes only for a block control cannot leave through its end: evaluated, from its
+    source, on every block of up to two statements over {assignment, return, if/else, one-armed if, while, for, with}
+    nested two deep, against the definition (last statement is a return, an if/else whose arms both are, or a `with`
+    whose body is)."""
+    from itertools import product
+
+    from ..minipy import Interp, Obj
+    if not ctx.repo.has_func(RD, '_always_returns'):
+        ctx.bad(RD, None, '_always_returns', 'the test for an arm that always returns', 'helper not found')
+        return
+    fn = ctx.fn(RD, '_always_returns')
+    funcs = {'_always_returns': fn}
+
+    def block(stmts):
+        return Obj('StmtBlock', stmts=list(stmts))
+
+    def blocks(depth: int):
+        leaves = [('assign', Obj('Assign')), ('return', Obj('ReturnStmt'))]
+        out = [((), block(()))]
+        kinds = list(leaves)
+        if depth > 0:
+            inner = blocks(depth - 1)
+            for (da, a), (db, b) in product(inner, inner):
+                kinds.append((('if', da, db), Obj('IfStmt', ift=a, iff=b)))
+            for d, b in inner:
+                kinds.append((('if1', d), Obj('If1Stmt', body=b)))
+                kinds.append((('while', d), Obj('WhileStmt', body=b)))
+                kinds.append((('for', d), Obj('ForStmt', body=b)))
+                kinds.append((('with', d), Obj('ContextStmt', body=b)))
+        for k in kinds:
+            out.append(((k[0],), block([k[1]])))
+        for k1, k2 in product(leaves, kinds):
+            out.append(((k1[0], k2[0]), block([k1[1], k2[1]])))
+        return out
+
+    def oracle(desc) -> bool:
+        if not desc:
+            return False
+        last = desc[-1]
+        if last == 'return':
+            return True
+        if isinstance(last, tuple) and last[0] == 'if':
+            return oracle(last[1]) and oracle(last[2])
+        if isinstance(last, tuple) and last[0] == 'with':
+            return oracle(last[1])
+        return False
+    n = 0
+    bad = None
+    for desc, b in blocks(2):
+        got = Interp(funcs).call_function(fn, [b])
+        n += 1
+        if got and not oracle(desc) and bad is None:
+            bad = f'a block ending in {desc[-1] if desc else "nothing"} is taken to always return'
+    ctx.check(bad is None, RD, fn, '_always_returns', f'"always returns" is claimed only for blocks control cannot fall out of ({n} block shapes)',
+              (bad or '') + ': the definitions of the arm that does fall through are dropped from what follows')
+
+
 def _base(t: Any) -> Any:
     while isinstance(t, tuple) and t and t[0] in ('bind', 'phi'):
         t = t[1]
     return t
 
 
-def _check_phi(ctx: Ctx, fn, q: str, rets: list[Any], *, base, domain: set[str], lhs, rhs, loop: bool, guarded: bool, why: str, either_order: bool = False):
+def _check_phi(ctx: Ctx, fn, q: str, rets: list[Any], *, base, domain: set[str], lhs, rhs, loop: bool, guarded: bool, why: str, either_order: bool = False,
+               after_exit=lambda g: False):
     qn = f'_ReachingDefs.{q}'
     if len(rets) != 1:
         ctx.bad(RD, fn, qn, 'one result environment', f'{len(rets)} return statements')
@@ -280,6 +354,7 @@ def _check_phi(ctx: Ctx, fn, q: str, rets: list[Any], *, base, domain: set[str],
         ctx.bad(RD, fn, qn, 'the result environment carries the phi nodes', f'leaves {show(rets[0])[:200]}: {why}')
         return
     _, T, name, l, r, lp, guards = phis[0]
+    guards = tuple(g for g in guards if not after_exit(g))      # the negation of an earlier exit, checked by the caller
     ok_dom = show(name) in domain
     ok_ops = (l == lhs(name) and r == rhs(name)) or (either_order and l == rhs(name) and r == lhs(name))
     ok_loop = lp == ('k', loop)
